@@ -29,6 +29,10 @@ def main():
         audit = None
         if a.no_proof:
             core.EVIDENCE = core.VERIF / "evidence_dev"      # development runs never touch the committed evidence
+            if os.environ.get("VERIF_SCRATCH_OUT"):          # mutation runs: evidence + replays go to a scratch directory
+                from pathlib import Path
+                core.EVIDENCE = Path(os.environ["VERIF_SCRATCH_OUT"]) / "evidence"
+                core.REPLAYS = Path(os.environ["VERIF_SCRATCH_OUT"]) / "replays"
         if not a.no_proof:
             audit = core.proof_audit(pid, leanchecker=(a.tier == "thorough"))
         search = mod.run(chk)
